@@ -1741,8 +1741,18 @@ def modelled_doc(pydoc, in_ty):
     date/time/duration is expected is handled by the leaf model (fault) and stays in."""
     if not has_text_bytes(in_ty):
         return True
-    for p in paths(pydoc):
-        n = get_at(pydoc, p)
+
+    def nodes(d):
+        # (the msgpack parser of the server hands out tuples, `load` lists)
+        yield d
+        if isinstance(d, dict):
+            for v in d.values():
+                yield from nodes(v)
+        elif isinstance(d, (list, tuple)):
+            for v in d:
+                yield from nodes(v)
+
+    for n in nodes(pydoc):
         if isinstance(n, (str, bytes)) and lenient_only(n):
             return False
         if isinstance(n, str) and any(lenient_only(c) for c in set(n)):
